@@ -216,6 +216,7 @@ def check_history(case, tape, trace):
         elif k in ("TONE", "NOTONE", "DELAY", "SER"):
             seg.append((k, a))
     state = [{"sounding": False, "cur": 0.0, "last": case["defaults"][i]} for i in range(nb)]
+    pin_on = {p: False for p in pins}   # what the pin is really doing (from TONE / NOTONE events)
     for op in case["ops"]:
         ev = segs.get(op["m"])
         if ev is None:
@@ -232,6 +233,15 @@ def check_history(case, tape, trace):
         delays = [int(a.split()[0]) for k, a in mine if k == "DELAY"]
         # (a requested frequency in (0, 0.5) Hz rounds to tone(pin, 0): outside the statement, which speaks of f <= 0; judged per call below)
         name = op["op"]
+        # real pin state during this call: a delay of a silent call must be spent with the pin off
+        loud_delays = []
+        for k, a in mine:
+            if k == "TONE":
+                pin_on[pin] = True
+            elif k == "NOTONE":
+                pin_on[pin] = False
+            elif k == "DELAY" and pin_on[pin] and int(a.split()[0]) > 0:
+                loud_delays.append(a)
         ends_silent = None
         budget = None
         if name == "play_tone":
@@ -240,6 +250,8 @@ def check_history(case, tape, trace):
             if f <= 0:
                 if tones:
                     fails.append(("play_tone-nonpositive-started", "f <= 0 never starts a tone", tones))
+                if loud_delays:
+                    fails.append(("play_tone-nonpositive-not-silent", "pin silent during play_tone with frequency <= 0", f"pin still sounding during delay {loud_delays[0]}"))
                 stt.update(sounding=False, cur=0.0)
             else:
                 if len(tones) != 1 or not tone_ok(tones[0], f):
@@ -278,6 +290,8 @@ def check_history(case, tape, trace):
             else:
                 if tones:
                     fails.append(("beep-nonpositive-started", "no tone", tones))
+                if loud_delays:
+                    fails.append(("beep-nonpositive-not-silent", "pin silent during a beep with frequency <= 0", f"pin still sounding during delay {loud_delays[0]}"))
             if n > 0:
                 stt.update(sounding=False, cur=0.0)
                 ends_silent = True
